@@ -88,10 +88,11 @@ class Ent:
 
 
 class Mod:
-    def __init__(self, name, rank):
+    def __init__(self, name, rank, counter=None):
         self.name = name
         self.file = name + ".py"
         self.rank = rank
+        self._shared = counter if counter is not None else [0]
         self.imports = {}        # key -> (style, local name)
         self.import_lines = []
         self.body = []           # Line
@@ -99,8 +100,9 @@ class Mod:
         self.counter = 0
 
     def fresh(self, prefix):
-        self.counter += 1
-        return "%s%d" % (prefix, self.counter)
+        # names are unique in the whole project (a from-import never shadows a local definition)
+        self._shared[0] += 1
+        return "%s%d" % (prefix, self._shared[0])
 
 
 class Scope:
@@ -482,7 +484,7 @@ class Gen:
         base_via = "local"
         base_exprs = []
         cands = self.visible(tmp, "class")
-        shape = self.ch.pick(["none", "none", "single", "single", "single", "diamond"])
+        shape = self.ch.pick(["none", "single", "single", "single", "single", "diamond"]) if cands else "none"
         if shape == "diamond" and self.avoided("diamond-method"):
             shape = "single"
         if shape == "single" and cands:
@@ -586,7 +588,7 @@ class Gen:
                 continue
             out.append(Line("    def %s(self, x):" % n))
             sc = Scope(self, mod, e.idx, 2, out, "x", self_cls=e, method_name=n)
-            k = self.ch.pick([0, 0, 1, 1, 2])
+            k = self.ch.pick([0, 1, 1, 1, 2])
             for _ in range(k):
                 self.method_stmt(sc)
             if inherited and len(bases) == 1 and self.ch.chance(35) and not self.avoided("super-method", base_via):
@@ -618,7 +620,7 @@ class Gen:
         """statement inside a method: self-calls (to smaller method names), self.cb calls, or a general statement"""
         cls = sc.self_cls
         r = self.ch.int(0, 9)
-        if r < 4:
+        if r < 6:
             smaller = [n for n in self.method_names(cls) if n in METHOD_NAMES and n < sc.method_name]
             smaller = [n for n in smaller if self.find_method(cls, n)[0].methods[n]["flavour"] == "plain"]
             if smaller:
@@ -631,7 +633,7 @@ class Gen:
                     sc.emit("%s = self.%s(%s)" % (v, n, self.arg(sc)), kind, via)
                     sc.last = v
                     return
-        if r < 6 and self.init_info(cls)[1] == "cb" and not self.avoided("stored-field-self"):
+        if r < 8 and self.init_info(cls)[1] == "cb" and not self.avoided("stored-field-self"):
             v = sc.mod.fresh("r")
             sc.emit("%s = self.cb(%s)" % (v, self.arg(sc)), "stored-field-self", "local")
             sc.last = v
@@ -722,7 +724,7 @@ class Gen:
 
     def scenario(self, sc):
         ch = self.ch
-        which = ch.pick(SCENARIOS)
+        which = ch.pick(self.scenarios)
         if sc.depth >= 2 and which in ("wrap-if", "wrap-loop", "wrap-try", "cond-alias"):
             which = "func"
         if which == "func":
@@ -739,10 +741,10 @@ class Gen:
             cs = self.visible(sc, "class")
             if not cs:
                 return False
-            cls = ch.pick(cs)
+            cls = ch.pick(cs + [c for c in cs if c.bases] * 2)
             o = self.construct(sc, cls)
             via = self.ref(sc, cls)[1]
-            n = ch.pick([1, 1, 2])
+            n = ch.pick([1, 2, 2, 3])
             for _ in range(n):
                 self.method_call(sc, o, cls, via)
             return True
@@ -1008,16 +1010,19 @@ class Gen:
         ch = self.ch
         nfiles = ch.pick({1: [1], 2: [1, 2, 2], 3: [1, 2, 2, 3, 3]}[self.max_files])
         names = {1: ["main"], 2: ["hlpa", "main"], 3: ["hlpb", "hlpa", "main"]}[nfiles]
-        self.mods = [Mod(n, i) for i, n in enumerate(names)]
+        counter = [0]
+        self.theme = ch.pick(["mixed", "mixed", "classes", "classes", "values"])
+        self.def_types, self.scenarios = THEMES[self.theme]
+        self.mods = [Mod(n, i, counter) for i, n in enumerate(names)]
         for mod in self.mods:
             is_main = mod.name == "main"
-            ndefs = ch.int(3, 7) if is_main or nfiles == 1 else ch.int(2, 5)
+            ndefs = ch.int(2, 5) if is_main or nfiles == 1 else ch.int(1, 4)
             if self.size:
                 ndefs = self.size
             if mod.rank == 0:
                 self.def_func(mod)
             for _ in range(ndefs):
-                t = ch.pick(DEF_TYPES)
+                t = ch.pick(self.def_types)
                 if t == "func":
                     self.def_func(mod)
                 elif t == "ho":
@@ -1033,7 +1038,7 @@ class Gen:
                 elif t == "objfactory":
                     self.def_objfactory(mod)
             # module-level statements
-            nst = ch.int(3, 8) if is_main else ch.int(0, 2)
+            nst = ch.int(2, 6) if is_main else ch.int(0, 2)
             x = mod.fresh("x")
             mod.body.append(Line("%s = %d" % (x, ch.int(1, 9))))
             sc = Scope(self, mod, len(self.ents), 0, mod.body, x, at_module_level=True)
@@ -1060,11 +1065,23 @@ class Gen:
         return {"files": files, "main": "main.py", "kinds": kinds, "stepped": dict(self.stepped)}
 
 
-DEF_TYPES = ["func", "func", "func", "ho", "ho", "factory", "factory", "class", "class", "class", "class", "rec", "recv",
-             "objfactory"]
-SCENARIOS = ["func", "func", "func", "method", "method", "method", "callback", "callback", "callback", "factory",
-             "factory", "alias", "list", "dict", "field", "cbclass", "recv", "objfactory", "rec", "rec", "classattr",
-             "lambda", "nested", "cond-alias", "wrap-if", "wrap-loop", "wrap-try"]
+THEMES = {
+    "mixed": (
+        ["func", "func", "func", "ho", "ho", "factory", "factory", "class", "class", "class", "class", "rec", "recv",
+         "objfactory"],
+        ["func", "func", "func", "method", "method", "method", "callback", "callback", "callback", "factory",
+         "factory", "alias", "list", "dict", "field", "cbclass", "recv", "objfactory", "rec", "rec", "classattr",
+         "lambda", "nested", "cond-alias", "wrap-if", "wrap-loop", "wrap-try"]),
+    "classes": (
+        ["func", "class", "class", "class", "class", "class", "class", "recv", "recv", "objfactory", "ho", "rec"],
+        ["func", "method", "method", "method", "method", "method", "method", "recv", "recv", "objfactory",
+         "objfactory", "cbclass", "cbclass", "classattr", "callback", "field", "wrap-if", "wrap-loop", "wrap-try"]),
+    "values": (
+        ["func", "func", "func", "ho", "ho", "ho", "factory", "factory", "factory", "class", "rec"],
+        ["func", "callback", "callback", "callback", "factory", "factory", "factory", "alias", "list", "list", "dict",
+         "dict", "field", "field", "cond-alias", "cond-alias", "lambda", "nested", "nested", "rec", "wrap-if",
+         "wrap-loop", "wrap-try"]),
+}
 
 
 def random_project(seed, **kw):
@@ -1077,5 +1094,10 @@ def projects(avoid=(), extended=True, max_files=3):
 
     @st.composite
     def s(draw):
-        return Gen(Chooser(draw), avoid=avoid, extended=extended, max_files=max_files).build()
+        # One 48-bit integer drawn from Hypothesis seeds a deterministic chooser: drawing every choice separately
+        # makes Hypothesis favour the all-smallest programs and a third of the cases come out as duplicates.
+        seed = draw(st.integers(0, 2 ** 48 - 1))
+        case = Gen(RandomChooser(seed), avoid=avoid, extended=extended, max_files=max_files).build()
+        case["gen_seed"] = seed
+        return case
     return s()
